@@ -144,6 +144,13 @@ def make_jobs(ctx):
     # --- targeted races (the F3 shape at every line of the caller) ---------------------------------
     job('schedules', [(P,), (C,)], schedules=targeted_schedules())
     job('schedules', [(P, C), (C, C)], schedules=targeted_schedules())
+    # --- single-preemption search (direct evaluator's search engine, independent of the model's graph) ---------
+    for sc in ([(C,), (C,)], [(P,), (C,)], [(P, C), (C,)], [(C, C), (P, C)], [(C,), (C,), (C,)], [(P,), (C,), (C,)],
+               [(P, C), (C,), (P,)], [(C, K, C), (P,)]):
+        jobs.append({'kind': 'preempt', 'cfg': FIXED, 'scripts': [tuple(x) for x in sc], 'oracle': ORACLES['ok'],
+                     'oracle_name': 'ok', 'maxk': 28})
+    jobs.append({'kind': 'preempt', 'cfg': FIXED, 'scripts': [(P, C), (C,)], 'oracle': ORACLES['timeout_first'],
+                 'oracle_name': 'timeout_first', 'maxk': 28})
     # --- seeded random walks: more threads, longer scripts, random oracles ---------------------------
     nwalkjobs = ctx.pick(40, 400)
     for _ in range(nwalkjobs):
@@ -204,6 +211,8 @@ def size_estimate(job):
     n = sum(len(s) for s in job['scripts']) * (len(job['scripts']) ** 2)
     if job['kind'] == 'walks':
         return 5
+    if job['kind'] == 'preempt':
+        return 60
     if job.get('sample'):
         return 50
     return n
